@@ -266,6 +266,9 @@ def c11(ctx, api):
     st, summ = api['run_tlc_to_harness'](ctx, 'str', 'GenStr',
                                          cfg(constants={'Emit': 'TRUE', 'Prop': '"C11"', 'MaxLen': n}), timeout=3000)
     acc.add('GenStr: all strings of length <= %d over {a, e-acute, U+0301, euro, U+FFFD, emoji} x ~170 string operations' % n, st, summ)
+    tv = api['run_trace_validation'](ctx, 'unicode-traces', 3000 if thorough else 800, ctx['seed'], corpus=False, mode='unicode')
+    acc.add_traces('trace validation: 30 string operations on random strings of <= 7 code points over 12 symbols (1-4 bytes, combining mark, '
+                   'U+FFFD, U+10000), recorded from the real Search and checked by TLC', tv)
     return acc.result(RULE_PINNED, extra={'model_checks': ['RenamingHomomorphism', 'NoTypeErrors'],
                                           'generic': 'every result string is checked to be valid UTF-8'})
 
@@ -282,6 +285,9 @@ def c13(ctx, api):
                                          timeout=3000)
     acc.add('GenSort: lengths %s x 4 key patterns x {number, string keys} x %d seeds x 10 expressions'
             % (lengths, 8 if thorough else 1), st, summ)
+    tv = api['run_trace_validation'](ctx, 'sort-traces', 600 if thorough else 150, ctx['seed'], corpus=False, mode='sort')
+    acc.add_traces('trace validation: sort_by / max_by / min_by / sort / group_by on random arrays of 13..200 elements with many ties, '
+                   'recorded from the real Search and checked by TLC against the specification sort', tv)
     return acc.result(RULE_PINNED, extra={'model_checks': ['Permutation', 'Ordered', 'TiesKeepInputOrder']})
 
 
@@ -376,18 +382,24 @@ def c06(ctx, api):
 def c07(ctx, api):
     acc = Acc()
     thorough = ctx['tier'] == 'thorough'
-    consts = {'Emit': 'TRUE', 'Prop': '"C07"', 'Gates': 3 if thorough else 2, 'NCallSets': 8 if thorough else 7,
+    consts = {'Emit': 'TRUE', 'Prop': '"C07"', 'Gates': 3 if thorough else 2, 'NCallSets': 7, 'First': 1,
               'Rounds': 200 if thorough else 25}
     st, summ = api['run_tlc_to_harness'](ctx, 'conc', 'APIConc', cfg(constants=consts), timeout=3000,
                                          harness_args=['-timeout', '10s'])
     acc.add('APIConc: every interleaving of 2 goroutines x 2 calls (%d gates per call)%s on shared expressions and documents, '
-            'replayed with the evaluate-entry hook as gate' % (consts['Gates'], ' and 3 x 2' if thorough else ''), st, summ)
+            'replayed with the evaluate-entry hook as gate' % (consts['Gates'], ''), st, summ)
+    # three goroutines: 17 million interleavings with 2 gates -- random ones
+    sim = {'num': 60 if thorough else 12, 'depth': 40, 'seed': ctx['seed']}
+    consts3 = dict(consts, Gates=2, NCallSets=8, First=8)
+    st, summ = api['run_tlc_to_harness'](ctx, 'conc3', 'APIConc', cfg(constants=consts3), simulate=sim, timeout=1500,
+                                         harness_args=['-timeout', '10s'])
+    acc.add('APIConc -simulate: random interleavings of 3 goroutines x 2 calls', st, summ, exhaustive=False)
     # the same call sets ungated under the race detector
     saved = ctx['harness']
     ctx['harness'] = ctx['harness_race']
     ctx['harness_env'] = {'GORACE': 'halt_on_error=1 exitcode=66'}
     try:
-        consts2 = dict(consts, Gates=1)
+        consts2 = dict(consts, Gates=1, NCallSets=8)
         st, summ = api['run_tlc_to_harness'](ctx, 'race', 'APIConc', cfg(constants=consts2), timeout=3000,
                                              harness_args=['-only', 'race', '-timeout', '120s', '-workers', '4'])
     finally:
